@@ -22,7 +22,9 @@ func (k Keeper) MintingEnabled(ctx sdk.Context, sender, receiver sdk.AccAddress,
 	}
 
 	id := k.GetTokenPairID(ctx, token)
-	denomId := k.GetTokenPairID(ctx, denom)
+	// the denomination is only ever looked up in the denom index: GetTokenPairID
+	// would resolve a 40-hex-digit string through the ERC20 address index
+	denomId := k.GetDenomMap(ctx, denom)
 	if !bytes.Equal(denomId, id) {
 		return types.TokenPair{}, sdkerrors.Wrapf(types.ErrTokenPairNotFound, "denom '%s' not registered by id", denom)
 	}
